@@ -131,3 +131,29 @@ def mem_streams(tier, rng, ctx, focus=None):
                rule="random histories (<= 12 calls) over 5 names incl. multi-byte, unclean / relative / special spellings"),
     ]
     return sts
+
+
+def wf_judge_query(line, impl_out):
+    # the extracted WF checker on the implementation's own final state
+    if "POISONED" in impl_out or "PANIC" in impl_out or "\t#" not in impl_out:
+        return None
+    return "wfcheck\t" + impl_out.split("\t#", 1)[1]
+
+
+def c03_streams(tier, rng, ctx):
+    sts = mem_streams(tier, rng, ctx)
+    for st in sts:
+        st.judge_query = wf_judge_query
+        st.judge = lambda l, o: ("PANIC" in o or "POISONED" in o or "CRASH" in o)
+    return sts
+
+
+PROPS["C03"] = {
+    "streams": c03_streams,
+    "rule": "model-guided breadth-first enumeration of every reachable state of a bounded namespace x every call of the alphabet (valid, invalid, relative, "
+            "unclean, special spellings) plus random longer histories; after every history the complete state (entries index, data index, per-directory "
+            "name sets, cwd, root) of the real Memfs is compared with the mirror's and the extracted WF checker is evaluated on it; "
+            "non-trivial = the history contains no failing call; distinct = distinct histories",
+    "trusted": ["hook sys::verif::memfs_snapshot (read-only state dump under one read guard)", "std HashMap/HashSet as finite maps/sets"],
+    "assumptions": ["HashMap / HashSet behave as finite maps / sets", "single-threaded histories (schedules: see C04)"],
+}
